@@ -14,6 +14,8 @@
  (5) Round 5: Fragments.insert keeps its index so that an in-order append after an empty chunk
      is accepted (C11-3), and the evaluator of deferred expressions keeps nothing between
      evaluations (C09-d).
+ (6) Round 7: includes the Auto typestate rule (C17-a): the before-pack hook writes the hidden
+     field and nothing else, so every pack recomputes what was left automatic.
 Equality of the re-parsed values for all consistent assignments, and whether an assignment is
 "consistent", are not decided.
 """
